@@ -18,12 +18,15 @@ structure Case where
   ops : List Op
   faults : List (Nat × Nat)
   crash : Option (Nat × Nat)
+  /-- executed by the harness built with `background_rotation` -/
+  bg : Bool := false
 
 def decOp (s : String) : Option Op :=
   match splitOnChar ':' s with
   | ["r"] => some .restart
   | ["o"] => some .obstacle
   | ["u"] => some .unobstacle
+  | ["q"] => some .quiesce
   | ["a", b, t] => match decBytes b, decBool t with
     | some b, some t => some (.append b t)
     | _, _ => none
@@ -92,6 +95,7 @@ def runModel (c : Case) : MState → List Op → List String
       else
         let d := m.app.disk.set (obstaclePath r) [120]
         ("o:placed|-|" ++ encSnap d) :: runModel c { m with app := { m.app with disk := d } } rest
+    | .quiesce => ("q|-|" ++ encSnap m.app.disk) :: runModel c m rest
     | .unobstacle =>
       let d := m.app.disk.erase (obstaclePath r)
       ("u|-|" ++ encSnap d) :: runModel c { m with app := { m.app with disk := d } } rest
@@ -124,11 +128,83 @@ def runModel (c : Case) : MState → List Op → List String
           (renderRes res ++ "|" ++ encBoundaries bs ++ "|" ++ encSnap st.disk) ::
             runModel c { app := st, attempts := n + 1 } rest
 
+/-! ### background rotation -/
+
+/-- `Path::with_extension("")` of the active path: the temp names are `<stem>.<unix seconds>`,
+shown as `<stem>.@<rank>` -/
+def stemOf (file : Path) : Path :=
+  match extensionOf file with
+  | some e => file.take (file.length - (e.length + 1))
+  | none => file
+
+def tempPrefix (file : Path) : Path := stemOf file ++ ".@".toList
+
+/-- internal name of the temp file of the rotation being modelled -/
+def tmpPath (file : Path) : Path := file ++ ['\x01']
+
+structure BgM where
+  app : AppState
+  attempts : Nat
+  /-- contents left under temp names by failed or interrupted rotation threads, oldest first -/
+  stranded : List Bytes
+
+def encSnapBg (file : Path) (d : Disk) (stranded : List Bytes) : String :=
+  let temps := (List.range stranded.length).zip stranded |>.map
+    (fun (i, y) => (tempPrefix file ++ (toString i).toList, y))
+  encSnap ⟨d.files ++ temps⟩
+
+/-- pull a left-over temp file out of the disk into the stranded list -/
+def settle (file : Path) (d : Disk) (stranded : List Bytes) : Disk × List Bytes :=
+  match d.get? (tmpPath file) with
+  | some y => (d.erase (tmpPath file), stranded ++ [y])
+  | none => (d, stranded)
+
+/-- the model's run under `background_rotation`: phase 1 renames the file to the temp name and
+`roll` returns Ok; phase 2 is the foreground rotation from the temp name (it commutes with the
+appends that follow, so it is applied at once); a failure of phase 2 is not reported to anybody and
+leaves the temp file behind -/
+def runModelBg (c : Case) : BgM → List Op → List String
+  | _, [] => []
+  | m, op :: rest =>
+    let cfg := c.cfg
+    let r := cfg.roller
+    let tmp := tmpPath cfg.file
+    match op with
+    | .restart =>
+      let st := restartOp cfg m.app.disk
+      ("rs:ok|-|" ++ encSnapBg cfg.file st.disk m.stranded) :: runModelBg c { m with app := st } rest
+    | .quiesce => ("q|-|" ++ encSnapBg cfg.file m.app.disk m.stranded) :: runModelBg c m rest
+    | .obstacle | .unobstacle => "unsupported|-|-" :: runModelBg c m rest
+    | .append rec answer =>
+      if !answer then
+        let (res, st) := appendOp cfg (fun _ => false) false rec m.app
+        (renderRes res ++ "|-|-") :: runModelBg c { m with app := st } rest
+      else
+        let n := m.attempts
+        let start := rotationStart cfg rec m.app
+        let d1 := moveFile cfg.file tmp start.disk
+        let fault : Nat → Bool := fun k => c.faults.contains (n, k)
+        let ff := firstFault fault (nSteps r)
+        let crashK : Option Nat := match c.crash with
+          | some (cn, k) => if cn = n && k < nSteps r && (match ff with | some f => k ≤ f | none => true) then some k else none
+          | none => none
+        match crashK with
+        | some k =>
+          let (image, str) := settle cfg.file (crashAfter r tmp k d1) m.stranded
+          let st := restartOp cfg image
+          ("crash|-|" ++ encSnapBg cfg.file image str) :: ("rs:ok|-|" ++ encSnapBg cfg.file st.disk str) ::
+            runModelBg c { app := st, attempts := n + 1, stranded := str } rest
+        | none =>
+          let (d2, str) := settle cfg.file (phase2Disk r tmp fault d1) m.stranded
+          let st1 : AppState := { start with disk := d2, writerOpen := false }
+          let st2 := if cfg.pre then writeRec cfg rec (getWriter cfg st1) else st1
+          "ok|-|-" :: runModelBg c { app := st2, attempts := n + 1, stranded := str } rest
+
 def decOpObs (s : String) : Option OpObs :=
   match splitOnChar '|' s with
   | [res, bs, fin] =>
     let bs? := if bs = "-" then some [] else mapM? decSnap (splitOnChar ';' bs)
-    match bs?, decSnap fin with
+    match bs?, (if fin = "-" then some Disk.empty else decSnap fin) with
     | some bs, some fin => some { res, boundaries := bs, final := fin }
     | _, _ => none
   | _ => none
@@ -160,9 +236,32 @@ def tagsOf (c : Case) (model : List String) : List String :=
   (if c.cfg.mode = .truncate && model.any (fun s => s.startsWith "err|") then ["truncate-after-failed-roll"] else []) ++
   (if nAttempts = 0 then ["trivial"] else [])
 
+def handleBg (c : Case) (implObs : String) : Answer :=
+  let st0 := restartOp c.cfg c.init
+  let modelL := ("rs:ok|-|" ++ encSnapBg c.cfg.file st0.disk []) ::
+    runModelBg c { app := st0, attempts := 0, stranded := [] } c.ops
+  let model := encList "/" modelL
+  let tags := "bg" :: (if !c.faults.isEmpty || c.crash.isSome then ["bg-fault-or-crash"] else []) ++ tagsOf c modelL
+  match mapM? decOpObs (decList '/' implObs) with
+  | none => { model, spec := "FAIL:unreadable observation;sig=C08/observation", tags }
+  | some os =>
+    match pairOps (Op.restart :: c.ops) os with
+    | none => { model, spec := "FAIL:observation length;sig=C08/observation", tags }
+    | some pairs =>
+      let spec := match checkBgHistory c.cfg (tempPrefix c.cfg.file) { written := [], closed := [], active := [] } pairs with
+        | none => "ok"
+        | some (clause, sig) => "FAIL:" ++ clause ++ ";sig=" ++ sig
+      { model, spec, tags }
+
+def decCaseBg (fields : List String) : Option Case :=
+  match fields with
+  | [a, b, c, d, e, f, g, h, i, j, "@bg"] => (decCase [a, b, c, d, e, f, g, h, i, j]).map (fun cs => { cs with bg := true })
+  | _ => decCase fields
+
 def handle : Handler := fun cas obs =>
-  match decCase cas, obs with
+  match decCaseBg cas, obs with
   | some c, [implObs] =>
+    if c.bg then handleBg c implObs else
     let st0 := restartOp c.cfg c.init
     let modelL := startObs st0 :: runModel c { app := st0, attempts := 0 } c.ops
     let model := encList "/" modelL
